@@ -8,13 +8,16 @@
              "ctype":"float","short":"f32"}
   answer  : {"ok":[line,...],"modOK":bool,"freeOK":bool}   the body lines `compL` + printer produce, the ghost
                                                  F6 flag, and whether the emitted body satisfies the static
-                                                 `free` discipline `CompileS.freeOK` (false = F7 situation)
+                                                 `free` discipline `CompileS.freeOK` (false = F7 situation);
+                                                 "wtC":bool = the emitted tree (incl. callees) is well-typed
+                                                 mini-C (`ExoModel.CTyping.wtFun`, property C15(a))
           | {"unsupported":why}                  outside the covered fragment
           | {"raise":why}                        the model says the real compiler raises
           | {"bad":msg}                          malformed request
 -/
 import ExoModel.Wire
 import ExoModel.CompileS
+import ExoModel.CTyping
 open Lean Exo Exo.Wire Exo.CompileS
 
 def optInt (j : Json) : P (Option Int) :=
@@ -43,9 +46,12 @@ def handle (line : String) : Json :=
                 let a ← arr e
                 pure (← str a[0]!, ← parseBounds a[1]!))
             | .error _ => pure []
+          let wt : Bool := match compP p bounds cb with
+            | .ok (cs, _) => Exo.CTyping.wtFun (paramsOf p.args) cs
+            | .error _ => false
           match printP pr p bounds cb with
           | .ok (ls, k, fo) => pure (Json.mkObj [("ok", .arr (ls.map Json.str).toArray), ("modOK", .bool k),
-              ("freeOK", .bool fo)])
+              ("freeOK", .bool fo), ("wtC", .bool wt)])
           | .error e =>
               if e.startsWith "unsupported:" then pure (Json.mkObj [("unsupported", .str e)])
               else pure (Json.mkObj [("raise", .str e)])
